@@ -33,7 +33,10 @@ def const_array(elem, dims, value):
 
 
 def call(eng, st, canon, node, guard):
-    args = [eng.ev(a, st, guard) for a in node.args]
+    if canon == "isinstance":
+        args = [eng.ev(node.args[0], st, guard)]
+    else:
+        args = [eng.ev(a, st, guard) for a in node.args]
     if canon == "len":
         USED.add("len")
         a = args[0]
@@ -60,8 +63,30 @@ def call(eng, st, canon, node, guard):
             return a
         raise Unsupported("int() of a non-integer")
     if canon == "float":
+        if isinstance(args[0], PyObj) and args[0].kind == "str" and args[0].val.lower() == "nan":
+            return sx.FL.nan
+        if sx.is_fl(args[0]):
+            return args[0]
         a = to_z3(args[0])
         return z3.ToReal(a) if z3.is_int(a) else a
+    if canon in ("isnan", "math.isnan"):
+        a = args[0]
+        if sx.is_fl(a):
+            return sx.FL.is_nan(a)
+        if isinstance(a, PyObj) and a.kind == "float":
+            return a.val != a.val
+        return False
+    if canon == "isinstance":
+        USED.add("isinstance on values of the declared parameter types (A-typed)")
+        v = args[0]
+        tname = node.args[1].id if isinstance(node.args[1], ast.Name) else None
+        if tname == "list":
+            return isinstance(v, (Ref, tuple))
+        if tname == "float":
+            return sx.is_fl(v) or isinstance(v, sx.Fraction) or (sx.is_z3(v) and z3.is_real(v))
+        if tname == "int":
+            return isinstance(v, int) and not isinstance(v, bool) or (sx.is_z3(v) and z3.is_int(v))
+        raise Unsupported("isinstance(_, %s)" % tname)
     if canon in ("numpy.zeros", "numpy.ones", "numpy.full"):
         USED.add(canon)
         shp = args[0]
@@ -134,6 +159,18 @@ def call(eng, st, canon, node, guard):
 
 def method(eng, st, recv, meth, node, guard):
     args = [eng.ev(a, st, guard) for a in node.args]
+    if meth == "append" and isinstance(recv, Ref) and st.heap[recv.base].kind == "list" and not recv.prefix:
+        USED.add("list.append")
+        ho = st.heap[recv.base]
+        v = args[0]
+        if isinstance(v, (Ref, tuple, PyObj)):
+            raise Unsupported("append of a non-scalar")
+        if ho.elem is None:
+            kind = "float" if sx.is_fl(v) else ("real" if sx.is_real(v) else ("bool" if isinstance(v, bool) or (sx.is_z3(v) and z3.is_bool(v)) else "int"))
+            ho = ho.replace(elem=kind, arr=sx.fresh(recv.base, sx.arr_sort(kind, 1)))
+        n = ho.shape[0]
+        st.heap[recv.base] = ho.replace(arr=z3.Store(ho.arr, n, sx.coerce(v, ho.elem)), shape=(n + 1,))
+        return PyObj("none")
     if meth == "fill" and isinstance(recv, Ref):
         USED.add("ndarray.fill")
         ho = st.heap[recv.base]
